@@ -298,7 +298,7 @@ def run(ctx, driver):
     quick = ctx.tier == "quick"
     ctx.rule = ("forests of chains with symbolic decay constants (rate form -k*x, time-constant form -x/k, mixed; with and without repeated constants; n = 2..4): the expected "
                 "singular equalities are known in closed form ({k_i = k_j : j a strict ancestor of i, k_i != k_j}); real analysis with sympy.solve and the validity test "
-                "recorded; distinct = distinct systems; non-trivial = at least one expected equality")
+                "recorded; distinct = distinct systems; non-trivial = at least one expected equality; plus oscillators (denominators under a root) and two-leak systems (a parameter that occurs in a denominator of A only inside sum entries); a reported condition is genuine iff some propagator denominator vanishes under it (symbolically and at two rational points) while A stays defined")
     rng = ctx.rng("family")
     cases = [c["case"] for c in ctx.corpus() if "case" in c]
     cases += [family(rng) for _ in range(ctx.n(22, 250))]
